@@ -44,6 +44,19 @@ CHECKS['C03'] = dict(
     technique="TLA+ option-space model enumerated by TLC -> real fits (spec->code) -> TLC trace validation of the fit postcondition",
     ref="DESIGN.md section 5 C03")
 
+CHECKS['C04'] = dict(
+    text=("TLC exhausts MC_Classify: the threshold life-cycle (fit / calibrate / set_threshold / predict to depth MaxOps) "
+          "with the action property that only those three actions change the threshold, and the pair / triplet / "
+          "quadruplet decision rules with every tie pattern on an integer domain; TLC-simulated op sequences are "
+          "executed on real ITML/MMC/SDML objects (spec->code) next to random histories, and SCML / LSML are queried on "
+          "tuples with manufactured exact ties, formed and through index+preprocessor; every recorded event is "
+          "validated by TLC with ObsClassify on the exact bits of the doubles (predict vs distance <= threshold_, "
+          "decision = -distance, AUC by exact pair counting, swap negation)."),
+    note=("Exhaustive for distances 0..3, thresholds -1..3, 4 operations; sampling beyond. The distances compared are the "
+          "ones pair_distance reports (their agreement with components_ is C01/C02)."),
+    technique="TLA+ threshold life-cycle model + TLC exhaustive/simulated behaviours replayed into code + TLC trace validation",
+    ref="DESIGN.md section 5 C04")
+
 NOT_YET = {}
 
 def main():
